@@ -98,3 +98,16 @@ Proof.
   exact (fun s => conj (TieStats.fleet_capacity_trigger_src s) (conj (TieStats.fleet_activation_guard_src s) TieStats.fleet_transit_legs_src)).
 Qed.
 Print Assumptions C14_departure_tests_regenerated.
+
+(* tie B: the Fleet EDGE adds nothing to its store: every wrapper delegates with one call and assigns nothing on the store
+   (re-translated from edges/fleet.py on every run; the timed model TFleet is the store plus its processes) *)
+From FV Require TieNodes.
+Theorem C14_fleet_edge_only_delegates :
+  SrcFragments.Fleet_reserve_put_delegates = true /\
+  SrcFragments.Fleet_reserve_get_delegates = true /\
+  SrcFragments.Fleet_put_delegates = true /\
+  SrcFragments.Fleet_get_delegates = true /\
+  SrcFragments.Fleet_reserve_put_cancel_delegates = true /\
+  SrcFragments.Fleet_reserve_get_cancel_delegates = true.
+Proof. repeat split. Qed.
+Print Assumptions C14_fleet_edge_only_delegates.
